@@ -38,6 +38,7 @@ type job struct {
 	Recurse bool   `json:"recurse"`
 	Delim   string `json:"delim"`
 	Cwd     string `json:"cwd"`
+	Cleanup bool   `json:"cleanup"` // remove the output directory once it has been hashed
 }
 
 type request struct {
@@ -231,6 +232,9 @@ func compileSeq(q request) response {
 			root = filepath.Join(j.Cwd, root)
 		}
 		files, err := hashTree(root)
+		if j.Cleanup {
+			os.RemoveAll(root)
+		}
 		if err != nil {
 			resp.Results = append(resp.Results, jobResult{Code: hx.CodeOther, Msg: err.Error()})
 			continue
